@@ -189,7 +189,7 @@ def c_remove(h):
     ["C16", "C13"],
     [PT + "rename_variable", PT + "remove_variable", PT + "copy", PT + "vars"],
     "S",
-    bound=BOUND + "; source and target range over {x,y,z,w}, source != target (precondition taken from the call sites)",
+    bound=BOUND + "; source and target range over {x,y,z,w}, source == target included (TermList.rename_variable forwards it unguarded)",
 )
 def c_rename(h):
     s = S(h)
@@ -197,14 +197,16 @@ def c_rename(h):
     names = V3 + ["w"]
     src = names[h.ctx.choose(4, "src")]
     tgt = names[h.ctx.choose(4, "tgt")]
-    if src == tgt:
-        return
     sa = s.snapshot(a)
     out = h.call(h.method(a, "rename_variable"), [s.var(src), s.var(tgt)])
     if _ret(h, out):
         r = out.value
         h.check("rename.returns_term", s.is_term(r), "%r" % (r,))
-        if s.is_term(r):
+        if s.is_term(r) and src == tgt:
+            # renaming a variable to itself changes nothing
+            h.ensure("C16.term.rename_to_itself_is_the_identity", s.same_term(r, a))
+            h.check("C13.rename.fresh", r is not a and r.attrs["variables"] is not a.attrs["variables"], "shares state")
+        elif s.is_term(r):
             # a behaviour satisfies the renamed term iff the renamed behaviour (source takes the target's value) satisfied the original
             h.ensure("C16.term.rename_meaning", s.e(r) == s.e(a, {src: s.pval(tgt)}))
             h.check("C16.term.source_gone", src not in s.coefs(r), "source still a key")
